@@ -12,11 +12,14 @@ import (
 	"time"
 
 	"github.com/pingcap/kvproto/pkg/pdpb"
+	"github.com/pingcap/log"
 	"github.com/tikv/pd/pkg/grpcutil"
 	"github.com/tikv/pd/pkg/typeutil"
 	"github.com/tikv/pd/server"
 	"github.com/tikv/pd/server/config"
 	"github.com/tikv/pd/server/tso"
+	"go.uber.org/zap"
+	"go.uber.org/zap/zapcore"
 	"google.golang.org/grpc"
 
 	"pdverif/internal/res"
@@ -460,6 +463,7 @@ func clusterPhase(R *res.Result, p *prepared) {
 	}
 	joinDuringGlobal(R, c, T, jt, global, localAns, suffix)
 	joinCase = jt
+	newLeaderMissesDC(R, c, T, jt)
 }
 
 // joinDuringGlobal: dc-6 joins, on a member the request does not talk to, while a Global request is in flight (slow
@@ -598,3 +602,126 @@ func joinDuringGlobal(R *res.Result, c *cluster, T *node, jt *joinTrace, global 
 }
 
 func dcnumOf(dc string) int { var n int; fmt.Sscanf(dc, "dc-%d", &n); return n }
+
+// logGate blocks the goroutine that logs a line containing msg (once), so that a driver can act at that point of the
+// real code without changing it.
+type logGate struct {
+	zapcore.LevelEnabler
+	mu      sync.Mutex
+	msg     string
+	armed   bool
+	parked  chan struct{}
+	release chan struct{}
+}
+
+func (c *logGate) With([]zapcore.Field) zapcore.Core { return c }
+func (c *logGate) Check(e zapcore.Entry, ce *zapcore.CheckedEntry) *zapcore.CheckedEntry {
+	return ce.AddCore(e, c)
+}
+func (c *logGate) Write(e zapcore.Entry, _ []zapcore.Field) error {
+	c.mu.Lock()
+	hit := c.armed && strings.Contains(e.Message, c.msg)
+	if hit {
+		c.armed = false
+	}
+	c.mu.Unlock()
+	if hit {
+		c.parked <- struct{}{}
+		<-c.release
+	}
+	return nil
+}
+func (c *logGate) Sync() error { return nil }
+
+// newLeaderMissesDC (last scenario of the cluster phase, Go side only): dc-7 joins and is served by member X; the PD
+// leadership is then transferred to a member that has not run its dc-location check since. The new leader answers
+// Global requests as soon as its Global allocator is initialised - it is stopped a little later in campaignLeader (at the
+// log line of its id-window reservation, before the rest of its start-up). A Global answer given there has to be
+// synchronised with dc-7 all the same: the next Local timestamp of dc-7 must be greater.
+func newLeaderMissesDC(R *res.Result, c *cluster, T *node, jt *joinTrace) {
+	skip := func(why string) { R.Notes = append(R.Notes, "new-leader scenario incomplete: "+why) }
+	var X, L *node
+	for _, x := range c.nodes {
+		if jt.idx[x] == 2 {
+			X = x
+		}
+		if jt.idx[x] == 1 {
+			L = x
+		}
+	}
+	if X == nil || L == nil || c.leader() != T {
+		skip("members")
+		return
+	}
+	tam := T.s.GetTSOAllocatorManager()
+	ctx := context.Background()
+	if _, err := T.s.GetClient().Put(ctx, tam.VerifNextLeaderKey("dc-7"), fmt.Sprint(X.s.GetMember().ID())); err != nil {
+		skip(err.Error())
+		return
+	}
+	if _, err := T.s.GetClient().Put(ctx, T.s.GetMember().GetDCLocationPath(424247), "dc-7"); err != nil {
+		skip(err.Error())
+		return
+	}
+	if !waitFor(60*time.Second, func() bool {
+		tam.ClusterDCLocationChecker()
+		X.s.GetTSOAllocatorManager().ClusterDCLocationChecker()
+		return serves(X, "dc-7")
+	}) {
+		skip("dc-7 is not served after 60 s")
+		return
+	}
+	if _, ok := L.s.GetTSOAllocatorManager().GetClusterDCLocations()["dc-7"]; ok {
+		skip("the next PD leader has already noticed dc-7 (its periodic check ran)")
+		return
+	}
+	if _, err := X.s.GetTSOAllocatorManager().HandleTSORequest("dc-7", 1); err != nil {
+		skip("dc-7: " + err.Error())
+		return
+	}
+	gate := &logGate{LevelEnabler: zapcore.InfoLevel, msg: "idAllocator allocates a new id", armed: true, parked: make(chan struct{}, 1), release: make(chan struct{}, 1)}
+	log.ReplaceGlobals(zap.New(gate), nil)
+	defer srv15.Quiet()
+	released := false
+	defer func() {
+		if !released {
+			select {
+			case gate.release <- struct{}{}:
+			default:
+			}
+		}
+	}()
+	rctx, cancel := context.WithTimeout(ctx, 10*time.Second)
+	err := T.s.GetMember().ResignEtcdLeader(rctx, T.cfg.Name, L.cfg.Name)
+	cancel()
+	if err != nil {
+		skip("resign: " + err.Error())
+		return
+	}
+	select {
+	case <-gate.parked:
+	case <-time.After(40 * time.Second):
+		skip("the new leader did not reach its id-window reservation within 40 s")
+		return
+	}
+	R.Count("cluster:new-leader-before-its-dc-location-check")
+	g, gerr := L.s.GetTSOAllocatorManager().HandleTSORequest(tso.GlobalDCLocation, 1)
+	var l pdpb.Timestamp
+	var lerr error
+	if gerr == nil {
+		l, lerr = X.s.GetTSOAllocatorManager().HandleTSORequest("dc-7", 1)
+	}
+	gate.release <- struct{}{}
+	released = true
+	if gerr != nil {
+		R.Count("cluster:new-leader:global-refused")
+		R.Notes = append(R.Notes, "new-leader scenario: the Global request was refused: "+gerr.Error())
+		return
+	}
+	R.Count("cluster:new-leader:global-answered")
+	if lerr == nil && !tsLess(g, l) {
+		R.Violate("C05:local-not-above-earlier-global:new-pd-leader-had-not-noticed-the-dc-location",
+			fmt.Sprintf("dc-7 joined and is served; the PD leadership moved to a member that had not run its dc-location check since; right after its Global allocator was initialised (before the rest of its start-up) it answered the Global timestamp (%d,%d) without synchronising dc-7; the next Local timestamp of dc-7 is (%d,%d): not greater", g.Physical, g.Logical, l.Physical, l.Logical),
+			map[string]interface{}{"global": []int64{g.Physical, g.Logical}, "local": []int64{l.Physical, l.Logical}})
+	}
+}
